@@ -109,7 +109,7 @@ func countedLoop(e *evaluator, phi *ssa.Phi) (lin, lin, bool) {
 			loop = l
 		}
 	}
-	if loop == nil || len(phi.Edges) != 2 {
+	if loop == nil || len(phi.Edges) < 2 {
 		return lin{}, lin{}, false
 	}
 	var init lin
@@ -119,8 +119,13 @@ func countedLoop(e *evaluator, phi *ssa.Phi) (lin, lin, bool) {
 			a := e.aff(ed)
 			if a.Base == (baseKey{phi, -1}) && a.Coef == 1 && a.Off == 1 {
 				stepOK = true
+			} else {
+				return lin{}, lin{}, false
 			}
 		} else {
+			if initOK {
+				return lin{}, lin{}, false
+			}
 			init = e.lin(ed)
 			initOK = true
 		}
@@ -362,6 +367,8 @@ func callerClamps(c *props.Ctx, p *c09path, S int64, w *ssa.Function, cpParam, s
 				return
 			}
 			var lo, hi ssa.Value
+			var bounds [2][3]ssa.Value
+			var bkeys, bpos [2][3]string
 			good := true
 			for a := 0; a < 3; a++ {
 				for side, sv := range []ssa.Value{stV, enV} {
@@ -418,21 +425,40 @@ func callerClamps(c *props.Ctx, p *c09path, S int64, w *ssa.Function, cpParam, s
 							good = false
 							continue
 						}
-						if side == 0 {
-							if lo != nil && lo != b.V {
-								good = false
-							}
-							lo = b.V
-						} else {
-							if hi != nil && hi != b.V {
-								good = false
-							}
-							hi = b.V
-						}
+						bounds[side][a] = b.V
+						bkeys[side][a] = key
+						bpos[side][a] = pos
 					}
 					if good {
 						c.R.Hold("RANGE-1", key, pos, fmt.Sprintf("%s.%c = %s(%s, %s)", which, "XYZ"[a], kind, l0, l1))
 					}
+				}
+			}
+			if !good {
+				return
+			}
+			// all three axes must clamp against the same lower / upper value: blame the odd one out
+			for side := 0; side < 2; side++ {
+				cnt := map[ssa.Value]int{}
+				for a := 0; a < 3; a++ {
+					cnt[bounds[side][a]]++
+				}
+				var maj ssa.Value
+				for v, n := range cnt {
+					if maj == nil || n > cnt[maj] {
+						maj = v
+					}
+				}
+				for a := 0; a < 3; a++ {
+					if bounds[side][a] != maj {
+						c.R.Violate("RANGE-1", bkeys[side][a], bpos[side][a], fmt.Sprintf("the %s of the sampled range on %c is clamped against a different bounds value than on the other axes", []string{"start", "end"}[side], "XYZ"[a]))
+						good = false
+					}
+				}
+				if side == 0 {
+					lo = maj
+				} else {
+					hi = maj
 				}
 			}
 			if !good || lo == nil || hi == nil {
@@ -442,7 +468,11 @@ func callerClamps(c *props.Ctx, p *c09path, S int64, w *ssa.Function, cpParam, s
 			key := fmt.Sprintf("%s→%s#bounds", name, w.Name())
 			lx, ok1 := lo.(*ssa.Extract)
 			hx, ok2 := hi.(*ssa.Extract)
-			if !ok1 || !ok2 || lx.Tuple != hx.Tuple || lx.Index != 0 || hx.Index != 1 {
+			if ok1 && ok2 && lx.Tuple == hx.Tuple && (lx.Index != 0 || hx.Index != 1) {
+				c.R.Violate("RANGE-1", key, c.P.Pos(call.Pos()), fmt.Sprintf("the start of the sampled range is clamped against result #%d and the end against result #%d of %s: lower and upper bound are confused", lx.Index, hx.Index, calleeName(lx.Tuple)))
+				return
+			}
+			if !ok1 || !ok2 || lx.Tuple != hx.Tuple {
 				c.R.Undecide("RANGE-1", key, c.P.Pos(call.Pos()), "lower and upper bound are not the two results of one bounds computation")
 				return
 			}
